@@ -81,6 +81,7 @@ type Exec struct {
 	entry      *State
 	rf         string // skolem region for frame conditions
 	rootExits  []exitRec
+	enclosing  map[string]Val // unconstrained stand-ins for enclosing-function variables named in a closure contract
 	modRegs    []modReg // regions named by the root's modifies clause, with their heap
 	inputs     []InputVar
 	quiet      int // >0: suppress obligations (spec-side inlining)
@@ -88,6 +89,7 @@ type Exec struct {
 	strlits    map[string]string
 	globals    map[string]Val
 	usedFloatArith bool
+	faCount        int // float-arithmetic operations translated so far (code and spec)
 	MaxInline  int
 	splitCase  string
 	fset       *token.FileSet
